@@ -109,7 +109,7 @@ def harnesses(tier, seed):
         c = l2.case(name, th)
         a = shape.ann(c["ir"], c["names"], c["cfg"])
         setup = f"from props.l2 import case\nC = case({name!r}, {th})"
-        if not th:
+        if not th and name != "union_nested_arrays":
             setup += "\nC = dict(C, cfg=C['cfg'].but(K=1))"
         call = "ob_choice(C, v, hs, dtn)"
         k1 = c["cfg"].but(K=1) if not th else c["cfg"]
